@@ -241,6 +241,12 @@ func (c *Ctx) Finish(verifDir string, start time.Time, seed int, extra map[strin
 	}
 	sort.Strings(fns)
 	info := propInfo[c.Prop]
+	if info.Assumptions == nil {
+		info.Assumptions = []string{}
+	}
+	if c.Notes == nil {
+		c.Notes = []string{}
+	}
 	cov := map[string]interface{}{
 		"explanation":          info.Explanation,
 		"not_decided":          info.NotDecided,
